@@ -47,7 +47,8 @@ type optIn struct {
 
 type mainIn struct {
 	Opts     []optIn   `json:"opts"`
-	Listener string    `json:"listener"` // http | https | https+tcp+sni
+	Listener string    `json:"listener"` // http | https | https+tcp+sni | http+pxy | https+pxy (pxyproto=true)
+	Pxy      string    `json:"pxy"`      // on a pxyproto listener: the client address announced in a PROXY v1 header ("" = no header)
 	HostOpt  string    `json:"hostopt"`  // options of the static route the request is sent to
 	Strip    string    `json:"strip"`
 	Wire     []wireHdr `json:"wire"`
@@ -213,6 +214,8 @@ type fabioProc struct {
 	plain    string // address of the proto=http listener
 	secure   string // address of the proto=https listener
 	sni      string // address of the proto=https+tcp+sni listener (no SNI route matches: falls through to HTTPS)
+	pxy      string // proto=http;pxyproto=true
+	pxys     string // proto=https;cs=lst;pxyproto=true
 	lastUsed int
 }
 
@@ -302,15 +305,16 @@ func startFabio(opts []optIn, upstream string) (*fabioProc, error) {
 		routes.WriteString("\n")
 	}
 	for attempt := 0; ; attempt++ {
-		ports, err := freeLoopbackPorts(4)
+		ports, err := freeLoopbackPorts(6)
 		if err != nil {
 			return nil, err
 		}
 		p := &fabioProc{plain: fmt.Sprintf("127.0.0.1:%d", ports[0]), secure: fmt.Sprintf("127.0.0.1:%d", ports[1]),
-			sni: fmt.Sprintf("127.0.0.1:%d", ports[3])}
+			sni: fmt.Sprintf("127.0.0.1:%d", ports[3]), pxy: fmt.Sprintf("127.0.0.1:%d", ports[4]), pxys: fmt.Sprintf("127.0.0.1:%d", ports[5])}
 		anyAddr := func(a string) string { return a[strings.LastIndexByte(a, ':'):] } // ":port": every address, IPv4 and IPv6
 		args := []string{"-insecure", "-registry.backend=static", "-registry.static.routes=" + routes.String(),
-			"-proxy.addr=" + anyAddr(p.plain) + ";proto=http," + anyAddr(p.secure) + ";proto=https;cs=lst," + anyAddr(p.sni) + ";proto=https+tcp+sni;cs=lst",
+			"-proxy.addr=" + anyAddr(p.plain) + ";proto=http," + anyAddr(p.secure) + ";proto=https;cs=lst," + anyAddr(p.sni) + ";proto=https+tcp+sni;cs=lst," +
+				anyAddr(p.pxy) + ";proto=http;pxyproto=true," + anyAddr(p.pxys) + ";proto=https;cs=lst;pxyproto=true",
 			"-proxy.cs=cs=lst;type=file;cert=" + cert + ";key=" + key,
 			fmt.Sprintf("-ui.addr=127.0.0.1:%d", ports[2]), "-log.level=WARN", "-proxy.shutdownwait=0s"}
 		env := []string{}
@@ -354,7 +358,8 @@ func startFabio(opts []optIn, upstream string) (*fabioProc, error) {
 		}
 		p.cmd, p.exited = cmd, make(chan struct{})
 		go func() { cmd.Wait(); close(p.exited) }()
-		up := waitListening(p.plain, false, p.exited) && waitListening(p.secure, true, p.exited) && waitListening(p.sni, true, p.exited)
+		up := waitListening(p.plain, false, p.exited) && waitListening(p.secure, true, p.exited) && waitListening(p.sni, true, p.exited) &&
+			waitListening(p.pxy, false, p.exited) && waitListening(p.pxys, true, p.exited)
 		if up {
 			p.started = true
 			return p, nil
@@ -495,8 +500,17 @@ func runMain(raw json.RawMessage) (interface{}, error) {
 	if !ok {
 		return nil, errors.New("no static route with these options")
 	}
-	if in.Listener != "http" && in.Listener != "https" && in.Listener != "https+tcp+sni" {
+	addr, secure := "", true
+	switch in.Listener {
+	case "http":
+		secure = false
+	case "https", "https+tcp+sni", "http+pxy", "https+pxy":
+	default:
 		return nil, errors.New("unknown listener")
+	}
+	pxyLine, pxyRemote, err := proxyHeader(in)
+	if err != nil {
+		return nil, err
 	}
 	e := getEnv()
 	out := mainOut{Target: e.upURL.Host, DefLIP: config.LocalIPString(), Hdr: []hdrOut{}, STS: []string{}}
@@ -513,31 +527,51 @@ func runMain(raw json.RawMessage) (interface{}, error) {
 	e.reached, e.uhost, e.uhdr, e.conn, e.interim = false, "", nil, connOut{}, in.Interim
 	e.mu.Unlock()
 
-	if in.H2 {
-		return runMainH2(in, p, path, &out)
+	switch in.Listener {
+	case "http":
+		addr = p.plain
+	case "https":
+		addr = p.secure
+	case "https+tcp+sni":
+		addr = p.sni
+	case "http+pxy":
+		addr, secure = p.pxy, false
+	case "https+pxy":
+		addr = p.pxys
 	}
-	var c net.Conn
-	if in.Listener != "http" {
-		addr := p.secure
-		if in.Listener == "https+tcp+sni" {
-			addr = p.sni
+	if in.H2 {
+		if !secure {
+			return nil, errors.New("HTTP/2 needs a TLS listener")
 		}
-		tc, err := tls.Dial("tcp", dialAddr(addr, in.V6), &tls.Config{InsecureSkipVerify: true})
-		if err != nil {
+		return runMainH2(in, addr, pxyLine, pxyRemote, path, &out)
+	}
+	tcp, err := net.Dial("tcp", dialAddr(addr, in.V6))
+	if err != nil {
+		return nil, err
+	}
+	defer tcp.Close()
+	tcp.SetDeadline(time.Now().Add(20 * time.Second))
+	if pxyLine != "" { // the PROXY header precedes everything, also the TLS handshake
+		if _, err := tcp.Write([]byte(pxyLine)); err != nil {
+			return nil, err
+		}
+	}
+	c := tcp
+	if secure {
+		tc := tls.Client(tcp, &tls.Config{InsecureSkipVerify: true})
+		if err := tc.Handshake(); err != nil {
 			return nil, err
 		}
 		st := tc.ConnectionState()
 		out.Conn.TLS, out.Conn.TLSV, out.Conn.TLSC = true, st.Version, st.CipherSuite
 		c = tc
-	} else {
-		c, err = net.Dial("tcp", dialAddr(p.plain, in.V6))
-		if err != nil {
-			return nil, err
-		}
 	}
-	defer c.Close()
-	// what fabio sees as RemoteAddr is this end of the connection
-	out.Conn.Remote, out.Conn.Proto = c.LocalAddr().String(), "HTTP/1.1"
+	// what fabio sees as RemoteAddr is this end of the connection - or, behind a load balancer speaking the PROXY
+	// protocol, the client address that balancer announces
+	out.Conn.Remote, out.Conn.Proto = tcp.LocalAddr().String(), "HTTP/1.1"
+	if pxyRemote != "" {
+		out.Conn.Remote = pxyRemote
+	}
 	c.SetDeadline(time.Now().Add(20 * time.Second))
 	resp, err := sendRaw(c, path+"/x", in.Host, in.Wire)
 	if err != nil {
@@ -552,15 +586,7 @@ func runMain(raw json.RawMessage) (interface{}, error) {
 
 // runMainH2: the same request over HTTP/2 (net/http's client; header names travel in lower case as the protocol
 // demands, lines of one name keep their order; Connection / Upgrade cannot be sent).
-func runMainH2(in mainIn, p *fabioProc, path string, out *mainOut) (interface{}, error) {
-	addr := p.secure
-	switch in.Listener {
-	case "https":
-	case "https+tcp+sni":
-		addr = p.sni
-	default:
-		return nil, errors.New("HTTP/2 needs a TLS listener")
-	}
+func runMainH2(in mainIn, addr, pxyLine, pxyRemote, path string, out *mainOut) (interface{}, error) {
 	if in.Host == "" {
 		return nil, errors.New("HTTP/2 needs an authority")
 	}
@@ -582,6 +608,9 @@ func runMainH2(in mainIn, p *fabioProc, path string, out *mainOut) (interface{},
 			c, err := (&net.Dialer{}).DialContext(ctx, network, addr)
 			if err == nil {
 				local = c.LocalAddr().String()
+				if pxyLine != "" {
+					_, err = c.Write([]byte(pxyLine))
+				}
 			}
 			return c, err
 		}}
@@ -596,12 +625,39 @@ func runMainH2(in mainIn, p *fabioProc, path string, out *mainOut) (interface{},
 		return nil, fmt.Errorf("HTTP/2 was not negotiated (%s)", resp.Proto)
 	}
 	out.Conn = connOut{Remote: local, Proto: resp.Proto, TLS: true, TLSV: resp.TLS.Version, TLSC: resp.TLS.CipherSuite}
+	if pxyRemote != "" {
+		out.Conn.Remote = pxyRemote
+	}
 	e := getEnv()
 	e.mu.Lock()
 	defer e.mu.Unlock()
 	out.Status, out.Reached, out.UHost, out.Hdr = resp.StatusCode, e.reached, e.uhost, canonHeader(e.uhdr)
 	out.STS = append(out.STS, resp.Header.Values("Strict-Transport-Security")...)
 	return *out, nil
+}
+
+// proxyHeader renders the PROXY protocol v1 line announcing in.Pxy ("ip:port" or "[ip6]:port") as the client, and
+// the RemoteAddr the proxy is then expected to see. Only on the pxyproto listeners.
+func proxyHeader(in mainIn) (line, remote string, err error) {
+	if in.Pxy == "" {
+		return "", "", nil
+	}
+	if in.Listener != "http+pxy" && in.Listener != "https+pxy" {
+		return "", "", errors.New("PROXY header on a listener without pxyproto")
+	}
+	host, port, err := net.SplitHostPort(in.Pxy)
+	if err != nil {
+		return "", "", err
+	}
+	ip := net.ParseIP(host)
+	var pn int
+	if _, err := fmt.Sscan(port, &pn); err != nil || ip == nil || pn < 1 || pn > 65535 || fmt.Sprint(pn) != port {
+		return "", "", errors.New("PROXY source is not an address")
+	}
+	if ip.To4() != nil {
+		return fmt.Sprintf("PROXY TCP4 %s 127.0.0.1 %d 80\r\n", ip.String(), pn), net.JoinHostPort(ip.String(), port), nil
+	}
+	return fmt.Sprintf("PROXY TCP6 %s ::1 %d 80\r\n", ip.String(), pn), net.JoinHostPort(ip.String(), port), nil
 }
 
 // sendRaw writes one HTTP/1.1 request with the header lines exactly as given and reads the response head.
@@ -804,7 +860,17 @@ func genMain(r *hx.Rand, i int) interface{} {
 	in.Listener = r.Pick([]string{"http", "http", "http", "https", "https", "https+tcp+sni"})
 	in.V6 = r.Chance(1, 4)
 	in.Interim = r.Chance(1, 8)
-	if in.Listener != "http" && r.Chance(1, 3) { // an HTTP/2 client
+	if r.Chance(1, 5) { // behind a load balancer that speaks the PROXY protocol (or a client talking to that listener directly)
+		if in.Listener == "http" {
+			in.Listener = "http+pxy"
+		} else {
+			in.Listener = "https+pxy"
+		}
+		if r.Chance(3, 4) {
+			in.Pxy = r.Pick([]string{"9.8.7.6:5555", "9.8.7.6:5555", "[2001:db8::9]:4711", "10.0.0.7:80", "[::1]:1"})
+		}
+	}
+	if strings.HasPrefix(in.Listener, "https") && r.Chance(1, 3) { // an HTTP/2 client
 		in.H2 = true
 		var w []wireHdr
 		for _, h := range in.Wire {
@@ -837,6 +903,9 @@ func init() {
 			mainIn{Listener: "http", Host: "foo.com"},
 			mainIn{Listener: "https", Host: "foo.com"},
 			mainIn{Listener: "http", V6: true, Host: "[::1]:9999", Opts: full, Wire: []wireHdr{{"x-client-ip", sp("::2")}, {"X-Forwarded-For", sp("2001:db8::1")}}},
+			mainIn{Listener: "http+pxy", Pxy: "9.8.7.6:5555", Host: "foo.com", Opts: full, Wire: []wireHdr{{"x-client-ip", sp("6.6.6.6")}, {"X-Forwarded-For", sp("6.6.6.6")}}},
+			mainIn{Listener: "https+pxy", Pxy: "[2001:db8::9]:4711", Host: "foo.com", Opts: full, Wire: []wireHdr{{"x-real-ip", sp("")}, {"Upgrade", sp("websocket")}}},
+			mainIn{Listener: "https+pxy", Host: "foo.com", Opts: full},
 			mainIn{Listener: "https+tcp+sni", Host: "foo.com", Opts: full, Wire: []wireHdr{{"x-tls", sp("off")}, {"x-client-ip", sp("6.6.6.6")}}},
 			// a plain listener runs with the TLS header configured: that is what removes a forged copy
 			mainIn{Listener: "http", Host: "foo.com", Opts: full,
